@@ -29,21 +29,33 @@ struct Block
 
 inline unsigned char pat(int slot, size_t i) { return (unsigned char)(slot * 37 + i * 11 + (i >> 8)); }
 
+// blocks above 1 MiB carry the pattern in their first and last 16 KiB only
+inline bool patterned(const Block &b, size_t i) { return b.size <= (1u << 20) || i < 16384 || i >= b.size - 16384; }
 void fill(Block &b, int slot)
 {
   b.checked = b.size;
-  if (b.size > (64u << 20)) {  // absurdly large but granted: touch both ends only
-    b.p[0] = pat(slot, 0);
-    b.p[b.size - 1] = pat(slot, 1);
-    b.checked = 0;
+  if (b.size <= (1u << 20)) {
+    for (size_t i = 0; i < b.size; i++)
+      b.p[i] = pat(slot, i);
     return;
   }
-  for (size_t i = 0; i < b.size; i++)
+  for (size_t i = 0; i < 16384; i++)
+    b.p[i] = pat(slot, i);
+  for (size_t i = b.size - 16384; i < b.size; i++)
     b.p[i] = pat(slot, i);
 }
 bool verify(const Block &b, int slot)
 {
-  for (size_t i = 0; i < b.checked; i++)
+  if (b.size <= (1u << 20)) {
+    for (size_t i = 0; i < b.checked; i++)
+      if (b.p[i] != pat(slot, i))
+        return false;
+    return true;
+  }
+  for (size_t i = 0; i < 16384; i++)
+    if (b.p[i] != pat(slot, i))
+      return false;
+  for (size_t i = b.size - 16384; i < b.size; i++)
     if (b.p[i] != pat(slot, i))
       return false;
   return true;
